@@ -50,6 +50,18 @@ CHECKS = {
    text="JqMatch.tla is the executable match semantics (pattern / alternatives / case loop) with declarative laws (first matching case, markers of later cases never fire, bindings reconstruct the subject); TLC enumerates case lists in three tiers x 10 subjects; every case list is replayed with side-effect markers, comparing value, marker trace and outcome, plus frame balance after block bodies.",
    note="Container subject against a non-null literal is open (three readings); patterns other than literal / identifier / array are outside.",
    tech="executable TLA+ match semantics with laws, TLC enumeration, replay with markers"),
+ "C02": dict(cat="model_checking", ref="5 (C02), 4.9",
+   text="JqDriver is a transition system with one action per loop level of EvalProgram / evalPatternRules / evalRules; TLC checks the schedule laws (BeginFirst, EndLast, Ordered, Bindings, ElementMultiplicity, BodyIffPattern, NextSkipsRestOfElementOnly, ExitAbsorbing, DenoteLaw, ...) in every reachable state over all rule lists <= 3 (30-symbol alphabet) x fixed inputs, all inputs x fixed rule lists, plus simulation; every explored behaviour is replayed into lang.EvalProgram and compared line for line (a sample through the binary); recorded hook traces of larger seeded random runs are validated by TLC against the same actions (Trace_Driver), with corrupted traces required to be rejected on every run.",
+   note="Trusts TLC; printed values limited to scalars/arrays/single-key objects; $ in ENDFILE after BEGINFILE reassigned it, $index outside array rounds, next outside pattern rules are left open.",
+   tech="TLA+ transition system: exhaustive BFS + simulation, behaviour replay, trace validation"),
+ "C03": dict(cat="model_checking", ref="5 (C03), 4.8",
+   text="JqStream (an RFC 8259 pushdown scanner + the reader/decoder transition system) is model-checked by TLC over every stream of <= 2 (sampled 3) values x every truncation / I/O-error position / single-byte substitution x EVERY chunking (Incremental, NoSpeculation, ChunkIndependent, PrefixClosed, FaultReported in every state); each (stream, fault) is replayed on lang.EvalProgram under the boundary-relevant chunkings with a scheduled reader, checking the output written at every Read call, final stdout / outcome / file name, and agreement across chunkings. B: seeded random JSONL streams (<= 200 values, chunks > 512 B) recorded as reader/decoder/writer traces and validated by TLC (Trace_Stream); a sample through the binary over a pipe.",
+   note="Trusts TLC and encoding/json as the meaning of JSON text (the model scanner is cross-checked against it on every vector); value-at-prefix-end and promptness of error reporting are left open.",
+   tech="TLA+ transition system model-checked over all chunkings + replay with a scheduled reader + TLC trace validation"),
+ "C14": dict(cat="model_checking", ref="5 (C14), 4.12",
+   text="JqCli models cli.Run as actions (and as a function, shown equal) over all 243 command-line shapes x 3 library results with relational laws (status iff ok, diagnostics iff failure, stdout shape, -f/inline, stdin/file, -o FILE/-o -); each shape is materialised with 40-108 program/selector/input triples on the compiled binary and compared with the library run on the same bytes, plus differential pairs (-r vs BEGINFILE { $ = E }, file and selector order) and fault cases (missing / unreadable inputs, -o with two inputs).",
+   note="The library is the oracle (that is the statement); exact exit codes and messages are not compared; mode-000 inputs are inconclusive when running as root.",
+   tech="TLA+ transition system of the CLI wrapper + differential replay on the binary"),
 }
 ALL = ["C%02d" % i for i in range(1, 21)]
 hooks_commits = subprocess.run(["git","-C","/repo","log","--format=%H %s"],capture_output=True,text=True).stdout.splitlines()
